@@ -176,10 +176,10 @@ def check_invalid_file(rec, demos, rng, idx, path, kinds, tier, timeout, mpi_ran
             return 'hang_on_invalid_input', 'did not terminate within the watchdog on a file with %s' % '+'.join(kinds)
         if r['rc'] == 0:
             return 'invalid_input_accepted', 'exit status 0 on a file with %s' % '+'.join(kinds)
-        if re.search(r'^(Using |MCB weight|FVS cycles|HORTON cycles)', r['out'], re.M):
-            return 'algorithm_ran_on_invalid_input', 'an algorithm was started on a file with %s' % '+'.join(kinds)
-        if not r['err'].strip():
-            return 'no_diagnostic', 'rejected a file with %s without any diagnostic on stderr' % '+'.join(kinds)
+        if re.search(r'^(MCB weight|MCB cycles|FVS cycles|ISO cycles|HORTON cycles)', r['out'], re.M):
+            return 'algorithm_ran_on_invalid_input', 'an algorithm ran and reported on a file with %s' % '+'.join(kinds)
+        if not r['err'].strip() and not re.search(r'(abort|invalid|loop|multiple|parallel|negative|positive|weight)', r['out'], re.I):
+            return 'no_diagnostic', 'rejected a file with %s without any diagnostic' % '+'.join(kinds)
         return None, None
     for prog in ('mcb-dimacs', 'approx-mcb-dimacs', 'collection-stats-dimacs'):
         extra = []
@@ -301,6 +301,8 @@ def c20_demo_part(rec, tier, seed, only=None):
             rec.inconclusive('demo run failed (rc=%s, timed_out=%s): %s' % (r['rc'], r['timed_out'], case['cmd']))
             return
         seen = {int(k): v for k, v in obs.get('active_values', {}).items()}
+        if cores == 0 and len(seen) == 1:
+            want = list(seen)[0]     # "all hardware threads" as the program itself determines them
         wrong = {k: v for k, v in seen.items() if k != want}
         if wrong:
             rec.viol('demo:cores_not_applied', '%s %s: %d of %d parallel regions ran while tbb max_allowed_parallelism was %s instead of %d' % (prog, case['cmd'], sum(wrong.values()), obs['regions'], sorted(wrong), want), case, obs, i)
